@@ -4,6 +4,7 @@
 (* `o` is the observation of the whole scope after the call (without the lookup matrices), `q` a sample of   *)
 (* lookups by name and selections by type, hits and misses.                                                  *)
 EXTENDS IprScopes, Json, IOUtils
+CONSTANT WithSpec          \* are the specifiers of the declarations part of the judgement? (C05: yes; C07: no, they are C02's and C05's)
 VARIABLE l
 tvars == <<decls, ndecl, sclast, l>>
 T == ndJsonDeserialize(IOEnv.TRACE)
@@ -14,13 +15,19 @@ TInit == ScInit /\ l = 1
 ObsLite(ds, s) == LET o == Obs(ds, s) IN
                   [elements |-> o.elements, types |-> o.types,
                    decls |-> [i \in 1..Len(o.decls) |-> [n |-> o.decls[i].n, t |-> o.decls[i].t, master |-> o.decls[i].master,
-                                                          declset |-> o.decls[i].declset, pos |-> o.decls[i].pos]]]
+                                                          declset |-> o.decls[i].declset, pos |-> o.decls[i].pos,
+                                                          spec |-> o.decls[i].spec]]]
+SameLite(ev, e) == /\ ev.elements = e.elements /\ ev.types = e.types /\ Len(ev.decls) = Len(e.decls)
+                   /\ \A i \in 1..Len(e.decls) :
+                         /\ ev.decls[i].n = e.decls[i].n /\ ev.decls[i].t = e.decls[i].t /\ ev.decls[i].master = e.decls[i].master
+                         /\ ev.decls[i].declset = e.decls[i].declset /\ ev.decls[i].pos = e.decls[i].pos
+                         /\ (WithSpec => ev.decls[i].spec = e.decls[i].spec)
 
 TDeclare == /\ Ev.k # "reset"
             /\ Declare(Ev.s, Ev.k, Ev.n, Ev.t)
             /\ sclast'.r = Ev.r
             /\ Ev.pre = <<IF Declared(decls, Ev.s, Ev.n) THEN 1 ELSE 0, Select(decls, Ev.s, Ev.n, Ev.t)>>   \* asked just before the call
-            /\ Ev.o = ObsLite(decls', Ev.s)
+            /\ SameLite(Ev.o, ObsLite(decls', Ev.s))
             /\ \A i \in 1..Len(Ev.q) :
                   /\ Ev.q[i][3] = (IF Declared(decls', Ev.s, Ev.q[i][1]) THEN 1 ELSE 0)
                   /\ Ev.q[i][4] = Select(decls', Ev.s, Ev.q[i][1], Ev.q[i][2])
